@@ -46,7 +46,8 @@ async fn read_stream(mut st: klukai_client::sub::SubscriptionStream<Vec<klukai_t
     out
 }
 
-pub async fn run(seed: u64, attempts: u64, forced: bool, out_path: &str) -> eyre::Result<()> {
+pub async fn run(seed: u64, attempts: u64, mode: u64, out_path: &str) -> eyre::Result<()> {
+    let forced = mode == 1;
     let dir = fresh_dir("subrace");
     let conf = make_conf(&dir)?;
     let (tripwire, worker, txw) = klukai_types::tripwire::Tripwire::new_simple();
@@ -66,7 +67,35 @@ pub async fn run(seed: u64, attempts: u64, forced: bool, out_path: &str) -> eyre
     let mut results = vec![];
     let mut next_id = 2i64;
     for att in 0..attempts {
-        if forced {
+        if mode == 2 {
+            // second forced schedule: the subscriber attaches while the matcher has sent a change event but not
+            // yet committed it (events are sent before the commit), so the snapshot ends before a change the
+            // queue already holds and the catch-up has to re-read the change log
+            let mut g = verif::arm("matcher.before_commit");
+            client.execute(&[Statement::WithParams("INSERT INTO tests (id, text) VALUES (?, ?)".into(), vec![next_id.into(), format!("v{next_id}").into()])], None).await?;
+            next_id += 1;
+            let parked = tokio::time::timeout(Duration::from_secs(4), async {
+                while *g.borrow_and_update() == 0 {
+                    let _ = g.changed().await;
+                }
+            })
+            .await
+            .is_ok();
+            let c2 = client.clone();
+            let reader = tokio::spawn(async move {
+                match c2.subscription(sub_id, false, None).await {
+                    Ok(st) => read_stream(st, 3500).await,
+                    Err(e) => vec![json!({"k": "attach_error", "msg": e.to_string()})],
+                }
+            });
+            sleep_ms(160).await; // snapshot taken, queue peeked, first re-read found nothing yet
+            verif::disarm("matcher.before_commit"); // the matcher commits
+            sleep_ms(900).await;
+            client.execute(&[Statement::WithParams("INSERT INTO tests (id, text) VALUES (?, ?)".into(), vec![next_id.into(), format!("v{next_id}").into()])], None).await?;
+            next_id += 1;
+            let got = reader.await?;
+            results.push(json!({"attempt": att, "mode": "inflight", "parked": parked, "out": got}));
+        } else if forced {
             let mut a1 = verif::arm("catchup.queue_loop");
             let mut a2 = verif::arm("catchup.before_snapshot");
             let c2 = client.clone();
